@@ -111,6 +111,7 @@ type progEnv struct {
 	seed   int
 	seedSt progSeed
 	steps  int64
+	res    progStepResult // scratch, reused by exec
 }
 
 func (e *progEnv) reset(seedIdx int, sd progSeed, memSeed uint32) {
@@ -152,8 +153,9 @@ func (e *progEnv) restore(s progSnap) {
 }
 
 // exec places symbol si at the current K:PC and steps every machine once.
-func (e *progEnv) exec(si int) progStepResult {
-	var res progStepResult
+func (e *progEnv) exec(si int) *progStepResult {
+	res := &e.res
+	*res = progStepResult{}
 	res.sym = si
 	p := e.cur[0].P
 	k, pc := e.cur[0].RK, e.cur[0].PC
@@ -257,7 +259,7 @@ func progSearch(depth int, seeds []progSeed, syms []progSym, useRef bool, memSee
 	var seen [shards]map[uint64]struct{}
 	var smu [shards]sync.Mutex
 	for i := range seen {
-		seen[i] = map[uint64]struct{}{}
+		seen[i] = make(map[uint64]struct{}, 1<<12)
 	}
 	note := func(h uint64) {
 		k := h % shards
@@ -279,7 +281,7 @@ func progSearch(depth int, seeds []progSeed, syms []progSym, useRef bool, memSee
 			for si := range syms {
 				snap := e.save()
 				res := e.exec(si)
-				ok := visit(e, &res)
+				ok := visit(e, res)
 				note(e.stateHash())
 				if ok && d > 1 {
 					dfs(d - 1)
@@ -291,17 +293,17 @@ func progSearch(depth int, seeds []progSeed, syms []progSym, useRef bool, memSee
 		res := e.exec(j.s1)
 		ok := true
 		if j.s2 <= 0 {
-			ok = visit(e, &res)
+			ok = visit(e, res)
 			note(e.stateHash())
 		} else {
 			ok = res.post[0].panic == nil && res.post[1].panic == nil
 			if ok {
-				ok = progQuietOK(e, &res, visit)
+				ok = progQuietOK(e, res, visit)
 			}
 		}
 		if ok && j.s2 >= 0 {
 			res2 := e.exec(j.s2)
-			ok2 := visit(e, &res2)
+			ok2 := visit(e, res2)
 			note(e.stateHash())
 			if ok2 && depth > 2 {
 				dfs(depth - 2)
@@ -355,7 +357,7 @@ func progReplay(p progPath, seeds []progSeed, syms []progSym, useRef bool, o pro
 			return "", fmt.Errorf("unknown instruction symbol %q", name)
 		}
 		res := e.exec(si)
-		sig, what, _ := o(e, &res)
+		sig, what, _ := o(e, res)
 		if sig != "" {
 			return what, fmt.Errorf("%s", sig)
 		}
